@@ -71,6 +71,22 @@ CLAIMS = {
          '35 bids x 4 flag combinations x 4 vul x 5 declarers + passed out. Correspondence EXHAUSTIVE on the same domains plus adversarial strings.',
          'Trusted: Lean kernel (propext only for most); exhaustive correspondence on the value domains; parsers compared on stated finite ASCII string sets.',
          'Lean 4 proof (decide over complete finite domains) + exhaustive correspondence'),
+
+ 'C09': ('Lean 4 theorems about the nine straight-line thread programs of a session (sessionProg, Model/Session.lean) composed over the generic '
+         'process network of Spec/Net.lean (single-writer/single-reader FIFO channels + one counting barrier): session_disciplined, '
+         'no_lost_wakeup (step_persistent: a step of another thread never disables an enabled one), step_diamond, confluence, '
+         'canonical_run_terminates (for EVERY scenario, any number of boards), session_always_completes (from ANY reachable state, under ANY '
+         'interleaving, the session can be continued and every continuation ends, after a fixed total number of steps, with all nine threads '
+         'finished, all channels drained, every channel having carried exactly the specified messages), runs_are_bounded (no infinite run), '
+         'never_deadlocks (the only state where nobody can move is the completed session), end_of_session_is_last, log_is_opened_written_closed. '
+         'Unbounded: induction over the phase list; the 74 phase shapes are checked by kernel evaluation on the payload-erased net and lifted. '
+         'Tie to /repo: the UNMODIFIED threaded Server + four conforming clients run under a deterministic scheduler; per-thread operation '
+         'sequences (queue/barrier/socket, with payloads) must equal the model programs, and every run must complete, under random / PCT / '
+         'lowest-first / stall-one schedules (thorough: systematic stall sweep over every thread and yield point).',
+         'Trusted: Lean kernel (3 standard axioms); primitive semantics of queue.Queue, stream sockets, threading.Barrier, time.sleep as stated in '
+         'DESIGN.md section 2 (modelled, not verified); OS fairness (some enabled thread eventually runs); the hand-written session model on '
+         'sessions not sampled; in-memory network instead of TCP. Partial aspect: real preemption/GIL/kernel buffers cannot be exhibited by the model.',
+         'Lean 4 proof (diamond + confluence of a Kahn-style network, induction over phases) + step-level correspondence under a deterministic scheduler'),
 }
 PENDING = 'check not built yet in this session (work in progress, see DESIGN.md section 9); will be claimed when its theorems and correspondence run'
 
